@@ -22,6 +22,8 @@ def run(tier, seed):
     core.run_jobs(jobs)
     for j in jobs:
         res.absorb(j)
+    # E4: coverage-guided campaign with the same oracle inside the target (value profile finds a = N, 2N-1, tie phases)
+    core.run_fuzz(res, "fz_c14", 12 if tier == "quick" else 600, 2 if tier == "quick" else 8, seed, "C14")
     res.rule = ("E1 rapidcheck: LWE ops {Clear,Copy,Negate,NoiselessTrivial,AddTo,SubTo,AddMulTo,SubMulTo} with n in 1..40 and {500,630,1023,1024,1025,2048}, "
                 "TLWE ops (+AddTTo, AddRTTo, MulByXaiMinusOne, NoiselessTrivialT) with N in 2..40 and powers of two up to 1024, k in 1..3, p in {0,+-1,+-2,"
                 "INT32_MIN,INT32_MAX,random}, binary and arbitrary integer keys, in-place aliasing for Copy/Negate, extraction at random and boundary j. "
